@@ -439,6 +439,131 @@ def full_json(d, to_json):
     return p
 
 
+# ------------------------------------------------------------------ matrices with errorCodes (reader step create_transport_costs)
+def ec_variants(rng, size2):
+    """(label, errorCodes | None, travelTimes length, distances length) around the data length size2 = n*n"""
+    def zeros(k):
+        return [0] * k
+
+    def mixed(k):
+        return [1 if rng.chance(1, 3) else 0 for _ in range(k)]
+    extra = rng.range(1, 3)
+    return [
+        ('ec-none', None, size2, size2),
+        ('ec-exact-zeros', zeros(size2), size2, size2),
+        ('ec-exact-some-positive', mixed(size2), size2, size2),
+        ('ec-exact-negative-codes', [-1] * size2, size2, size2),
+        ('ec-longer-surplus-zero', zeros(size2) + zeros(extra), size2, size2),
+        ('ec-longer-surplus-zero-after-positive', mixed(size2) + [2] * (extra - 1) + [0], size2, size2),
+        ('ec-longer-surplus-zero-first', zeros(size2) + [0] + [3] * (extra - 1), size2, size2),
+        ('ec-longer-surplus-positive', zeros(size2) + [1] * extra, size2, size2),
+        ('ec-longer-surplus-negative', zeros(size2) + [-1], size2, size2),
+        ('ec-shorter-by-1', zeros(size2 - 1), size2, size2),
+        ('ec-shorter', zeros(max(size2 - rng.range(2, 5), 0)), size2, size2),
+        ('ec-empty', [], size2, size2),
+        ('ec-exact-travel-times-short-last-zero', zeros(size2), size2 - 1, size2),
+        ('ec-exact-travel-times-short-last-positive', zeros(size2 - 1) + [1], size2 - 1, size2),
+        ('ec-exact-distances-short-last-positive', zeros(size2 - 1) + [5], size2, size2 - 1),
+        ('ec-none-travel-times-short', None, size2 - 1, size2),
+        ('ec-all-positive', [1] * size2, size2, size2),
+    ]
+
+
+def gen_matrix_case(rng, mk_doc, to_json):
+    from props import c10
+    for _ in range(100):
+        d = mk_doc(rng)
+        if not c10.py_spec(d) and not c10.py_known(d) and all(v['vehicle_ids'] for v in d['vehicles']):
+            break
+    d['relations'] = None
+    d['objectives'] = None
+    d['loc_mode'] = 'index' if rng.chance(1, 3) else 'coord'
+    n = count_locations(d)
+    profs = []
+    for p in d['profiles']:
+        if p not in profs:
+            profs.append(p)
+    ms, labels = [], []
+    dev = rng.below(len(profs))
+    for k, p in enumerate(profs):
+        vs = ec_variants(rng, n * n)
+        lab, ec, lt, ld = rng.choice(vs) if k == dev else rng.choice(vs[:3])
+        m = {'profile': p, 'travelTimes': [1] * lt, 'distances': [1] * ld}
+        if ec is not None:
+            m['errorCodes'] = ec
+        ms.append(m)
+        if k == dev:
+            labels.append(lab)
+    d['matrices'] = ms
+    problem = full_json(d, to_json)
+    return {'op': 'matrix', 'doc': d, 'labels': labels, 'problem': problem, 'matrices': ms, 'profiles': profs}
+
+
+def matrix_data_py(m):
+    """the documented behaviour of the matrix step: None = E0002 (an entry that is not marked unreachable has no data)"""
+    tt, dd, ec = m['travelTimes'], m['distances'], m.get('errorCodes')
+    if ec is None:
+        return (list(tt), list(dd))
+    du, di = [], []
+    for i, e in enumerate(ec):
+        if e > 0:
+            du.append(-1)
+            di.append(-1)
+        elif i < len(tt) and i < len(dd):
+            du.append(tt[i])
+            di.append(dd[i])
+        else:
+            return None
+    return (du, di)
+
+
+def round_sqrt(n):
+    s = int(n ** 0.5)
+    while s * s > n:
+        s -= 1
+    while (s + 1) * (s + 1) <= n:
+        s += 1
+    return s + 1 if n - s * s > s else s
+
+
+def expected_transport(c):
+    """'err' (E0002) | ('ok', size, [lengths])"""
+    datas = [matrix_data_py(m) for m in c['matrices']]
+    if any(x is None for x in datas):
+        return 'err'
+    if any(len(a) != len(b) for a, b in datas):
+        return 'err'
+    size = round_sqrt(len(datas[0][0]))
+    if any(round_sqrt(len(a)) != size for a, _ in datas):
+        return 'err'
+    return ('ok', size, [len(a) for a, _ in datas])
+
+
+def oracle_matrix(c, impl):
+    from props import c10
+    rd, v = impl['read'], impl['validate']
+    lab = '/'.join(c.get('labels', []))
+    out = []
+    if v['k'] != 'ok':
+        out.append({'class': 'matrix-case-not-accepted-by-validation:' + lab, 'what': str(v)[:300]})
+    exp = expected_transport(c)
+    if rd['k'] == 'panic':
+        out.append({'class': matrix_panic_class(c, exp), 'what': rd['msg'][:300]})
+    elif exp == 'err':
+        if c10.outcome(rd) != ('err', (2,)):
+            out.append({'class': 'matrix-without-data-for-a-reachable-entry-not-reported-as-E0002:' + lab, 'what': str(rd)[:300]})
+    elif rd['k'] != 'ok':
+        out.append({'class': 'consistent-matrix-rejected:' + lab, 'what': str(rd)[:300]})
+    return out
+
+
+def matrix_panic_class(c, exp):
+    n2 = count_locations(c['doc']) ** 2
+    if exp != 'err' and any(l < n2 for l in exp[2]):
+        return 'error-codes-shorter-than-matrix-truncate-it-panics-on-lookup'
+    return 'matrix-step-panics:' + '/'.join(c.get('labels', []))
+
+
 # ------------------------------------------------------------------ structural causes of crashes outside the Coq-modelled fragment
 def crash_causes(problem, matrices):
     """known crash classes, decided on the JSON document itself"""
